@@ -2,7 +2,7 @@
 Completeness of the decoder: every text the table-free RFC 8259 reference parser accepts is accepted by `Unmarshal`.
 The induction follows the reference parser; each token is matched by one of the simulation lemmas of `DecodeSim`.
 -/
-import Ajson.Proofs.DecodeSim
+import Ajson.Proofs.Build
 namespace Ajson.Proofs
 open Ajson Ajson.Heap Ajson.Spec
 
@@ -28,135 +28,21 @@ theorem resume_end (d : Nat) (s : DState) (r : Bytes) (j : Nat) (i : Nat) (h : s
 
 def NonWsHead (s : Bytes) : Prop := ∀ c bs, s = c :: bs → isWs c = false
 
+/-- what the simulation establishes for a value: the run continues after it in an after-value state whose heap is exactly
+`build` of the value, and the decoder is back at the enclosing container -/
 def PV (d fuel : Nat) : Prop := ∀ s i v r j, parseValue fuel s i = .ok (v, r, j) → ∀ st stack, VE st stack → NonWsHead s →
-  ∃ st', AV st' stack ∧ Same (decodeRun d st s i) (resume d st' r j)
+  ∃ st', AV st' stack ∧ Same (decodeRun d st s i) (resume d st' r j) ∧ st'.h = build d v st.h st.current st.key ∧
+    (∀ c : Nat, st.current = some c → st'.current = some c) ∧ (st.current = none → st'.current = some st.h.size)
 def PE (d fuel : Nat) : Prop := ∀ s i start acc v r j, parseValue.elements fuel s i start acc = .ok (v, r, j) →
-  ∀ st stack, VE st (false :: stack) → NonWsHead s → ∃ st', AV st' stack ∧ Same (decodeRun d st s i) (resume d st' r j)
+  ∀ st stack (c : Nat), VE st (false :: stack) → st.current = some c → NonWsHead s →
+  ∃ st' ys b, v = .arr start b (acc ++ ys) ∧ AV st' stack ∧ Same (decodeRun d st s i) (resume d st' r j) ∧
+    st'.h = (buildElems d ys st.h c).modify c (fun r => { r with b1 := b }) ∧
+    st'.current = some ((((buildElems d ys st.h c).get c).parent).getD c)
 def PM (d fuel : Nat) : Prop := ∀ s i start acc v r j, parseValue.members fuel s i start acc = .ok (v, r, j) →
-  ∀ st stack, InStack st (true :: stack) → st.key = none → (st.state = Gen.sOB ∨ st.state = Gen.sKE) →
-  ∃ st', AV st' stack ∧ Same (decodeRun d st s i) (resume d st' r j)
-
-theorem pv_step (d fuel : Nat) (he : PE d fuel) (hm : PM d fuel) : PV d (fuel + 1) := by
-  intro s i v r j hp st stack hv hnw
-  unfold parseValue at hp
-  cases s with
-  | nil => simp at hp
-  | cons c rest =>
-    simp only [] at hp
-    by_cases h123 : (c == 123) = true
-    · rw [if_pos h123] at hp
-      have hc : c = 123 := by simpa using h123
-      subst hc
-      obtain ⟨st1, hin1, hs1, hk1, hrun⟩ := step_open_object d hv rest i
-      cases hsk : skipWs rest (i + 1) with
-      | mk r1 i1 =>
-        rw [hsk] at hp
-        simp only [] at hp
-        match r1, hsk, hp with
-        | [], _, hp => cases hp
-        | x :: r2, hsk, hp =>
-          have hres := resume_skip d st1 rest (i + 1) x r2 i1 hsk
-          by_cases hx : x = 125
-          · subst hx
-            simp only [Except.ok.injEq, Prod.mk.injEq] at hp
-            obtain ⟨_, hr, hj⟩ := hp
-            subst hr; subst hj
-            obtain ⟨st', hav, hcl⟩ := step_close_object d hin1 hk1 (Or.inl hs1) r2 i1
-            exact ⟨st', hav, Same.of_eq (by rw [hrun, hres, hcl])⟩
-          · have hp' : parseValue.members fuel (x :: r2) i1 i [] = .ok (v, r, j) := by
-              split at hp
-              · cases hp
-              · rename_i heq; cases heq; exact absurd rfl hx
-              · exact hp
-            obtain ⟨st', hav, hsame⟩ := hm _ _ _ _ _ _ _ hp' st1 stack hin1 hk1 (Or.inl hs1)
-            exact ⟨st', hav, by rw [hrun, hres]; exact hsame⟩
-    rw [if_neg h123] at hp
-    by_cases h91 : (c == 91) = true
-    · rw [if_pos h91] at hp
-      have hc : c = 91 := by simpa using h91
-      subst hc
-      obtain ⟨st1, hin1, hs1, hk1, hrun⟩ := step_open_array d hv rest i
-      cases hsk : skipWs rest (i + 1) with
-      | mk r1 i1 =>
-        rw [hsk] at hp
-        simp only [] at hp
-        match r1, hsk, hp with
-        | [], _, hp => cases hp
-        | x :: r2, hsk, hp =>
-          have hres := resume_skip d st1 rest (i + 1) x r2 i1 hsk
-          by_cases hx : x = 93
-          · subst hx
-            simp only [Except.ok.injEq, Prod.mk.injEq] at hp
-            obtain ⟨_, hr, hj⟩ := hp
-            subst hr; subst hj
-            obtain ⟨st', hav, hcl⟩ := step_close_array d hin1 hk1 (Or.inl hs1) r2 i1
-            exact ⟨st', hav, Same.of_eq (by rw [hrun, hres, hcl])⟩
-          · have hp' : parseValue.elements fuel (x :: r2) i1 i [] = .ok (v, r, j) := by
-              split at hp
-              · cases hp
-              · rename_i heq; cases heq; exact absurd rfl hx
-              · exact hp
-            have hve1 : VE st1 (false :: stack) := ⟨hin1, Or.inl hs1, hk1⟩
-            obtain ⟨st', hav, hsame⟩ := he _ _ _ _ _ _ _ hp' st1 stack hve1 (fun c' bs' h => by cases h; exact skipWs_head _ _ _ _ _ hsk)
-            exact ⟨st', hav, by rw [hrun, hres]; exact hsame⟩
-    rw [if_neg h91] at hp
-    by_cases h34 : (c == 34) = true
-    · rw [if_pos h34] at hp
-      have hc : c = 34 := by simpa using h34
-      subst hc
-      cases hsc : scanStringBody rest (i + 1) with
-      | error e => rw [hsc] at hp; cases hp
-      | ok v1 =>
-        obtain ⟨r1, j1⟩ := v1
-        rw [hsc] at hp
-        simp only [Except.ok.injEq, Prod.mk.injEq] at hp
-        obtain ⟨_, hr, hj⟩ := hp
-        subst hr; subst hj
-        obtain ⟨st', hav, hrun⟩ := step_string d hv rest i r1 j1 hsc
-        exact ⟨st', hav, Same.of_eq hrun⟩
-    rw [if_neg h34] at hp
-    have wordCase : ∀ (w : Bytes) (f : Bytes × Nat → STree × Bytes × Nat), (∀ x, (f x).2 = x) →
-        ((c = 116 ∧ w = wTrue) ∨ (c = 102 ∧ w = wFalse) ∨ (c = 110 ∧ w = wNull)) →
-        Except.map f (expectWord w (c :: rest) i) = .ok (v, r, j) →
-        ∃ st', AV st' stack ∧ Same (decodeRun d st (c :: rest) i) (resume d st' r j) := by
-      intro w f hf hcw hmap
-      cases hew : expectWord w (c :: rest) i with
-      | error e => rw [hew] at hmap; cases hmap
-      | ok x =>
-        obtain ⟨r1, j1⟩ := x
-        rw [hew] at hmap
-        simp only [Except.map, Except.ok.injEq] at hmap
-        have := hf (r1, j1)
-        rw [hmap] at this
-        simp only [Prod.mk.injEq] at this
-        obtain ⟨hr, hj⟩ := this
-        subst hr; subst hj
-        obtain ⟨st', hav, hrun⟩ := step_word d hv c rest i w hcw r j hew
-        exact ⟨st', hav, Same.of_eq hrun⟩
-    by_cases h116 : (c == 116) = true
-    · rw [if_pos h116] at hp
-      exact wordCase wTrue _ (fun x => rfl) (Or.inl ⟨by simpa using h116, rfl⟩) hp
-    rw [if_neg h116] at hp
-    by_cases h102 : (c == 102) = true
-    · rw [if_pos h102] at hp
-      exact wordCase wFalse _ (fun x => rfl) (Or.inr (Or.inl ⟨by simpa using h102, rfl⟩)) hp
-    rw [if_neg h102] at hp
-    by_cases h110 : (c == 110) = true
-    · rw [if_pos h110] at hp
-      exact wordCase wNull _ (fun x => rfl) (Or.inr (Or.inr ⟨by simpa using h110, rfl⟩)) hp
-    rw [if_neg h110] at hp
-    by_cases hnum : (c == 45 || isDigit c) = true
-    · rw [if_pos hnum] at hp
-      cases hsn : scanNumber (c :: rest) i with
-      | error e => rw [hsn] at hp; cases hp
-      | ok x =>
-        obtain ⟨r1, j1⟩ := x
-        rw [hsn] at hp
-        simp only [Except.map, Except.ok.injEq, Prod.mk.injEq] at hp
-        obtain ⟨_, hr, hj⟩ := hp
-        subst hr; subst hj
-        exact step_number d hv c rest i hnum r1 j1 hsn
-    · rw [if_neg hnum] at hp; cases hp
+  ∀ st stack (c : Nat), InStack st (true :: stack) → st.current = some c → st.key = none → (st.state = Gen.sOB ∨ st.state = Gen.sKE) →
+  ∃ st' ys b, v = .obj start b (acc ++ ys) ∧ AV st' stack ∧ Same (decodeRun d st s i) (resume d st' r j) ∧
+    st'.h = (buildMembers d ys st.h c).modify c (fun r => { r with b1 := b }) ∧
+    st'.current = some ((((buildMembers d ys st.h c).get c).parent).getD c)
 
 theorem AV.cons_inStack {st : DState} {k : Bool} {stack : List Bool} (h : AV st (k :: stack)) : InStack st (k :: stack) := ⟨h.1, h.2.2.2⟩
 
@@ -173,8 +59,194 @@ theorem members_nil (f i start : Nat) (acc : List (Bytes × STree)) : ∃ e, par
   | zero => exact ⟨.eof, by simp [parseValue.members]⟩
   | succ f => exact ⟨.eof, by simp [parseValue.members]⟩
 
+/-- the container just opened: its node is the newest one, its parent is where the decoder was -/
+theorem open_info (d : Nat) {st : DState} {stack : List Bool} (hv : VE st stack) (t : NType) (i : Nat) (rest : Bytes) :
+    openHeap d st.h st.current st.key t i rest = openHeap d st.h st.current st.key t i [] ∧
+    ((openHeap d st.h st.current st.key t i []).get st.h.size).parent = st.current ∧
+    ((openHeap d st.h st.current st.key t i []).get st.h.size).type = t ∧
+    (openHeap d st.h st.current st.key t i []).size = st.h.size + 1 := by
+  obtain ⟨h1, cur, hnn, hok⟩ := hv.newNode d i [] t
+  refine ⟨openHeap_rest _ _ _ _ _ _ _ _, ?_, ?_, ?_⟩ <;> simp only [openHeap, hnn]
+  · rw [← hok.id_eq]; exact hok.parent_eq
+  · rw [← hok.id_eq]; exact hok.type_eq
+  · exact hok.size_eq
+
+theorem pv_step (d fuel : Nat) (he : PE d fuel) (hm : PM d fuel) : PV d (fuel + 1) := by
+  intro s i v r j hp st stack hv hnw
+  unfold parseValue at hp
+  cases s with
+  | nil => simp at hp
+  | cons c rest =>
+    simp only [] at hp
+    -- what happens after the container opened at `i` has been filled and closed
+    have closeCur : ∀ (h2 : Heap) (t : NType), Grown (openHeap d st.h st.current st.key t i []) h2 (some st.h.size) →
+        ((openHeap d st.h st.current st.key t i []).get st.h.size).parent = st.current →
+        (openHeap d st.h st.current st.key t i []).size = st.h.size + 1 →
+        ∀ c0 : Nat, st.current = some c0 → (((h2.get st.h.size).parent).getD st.h.size) = c0 := by
+      intro h2 t g hpar hsz c0 hc0
+      rw [g.below st.h.size (by omega) (fun q hq => by cases hq; exact Nat.le_refl _), hpar, hc0]; rfl
+    have closeNone : ∀ (h2 : Heap) (t : NType), Grown (openHeap d st.h st.current st.key t i []) h2 (some st.h.size) →
+        ((openHeap d st.h st.current st.key t i []).get st.h.size).parent = st.current →
+        (openHeap d st.h st.current st.key t i []).size = st.h.size + 1 →
+        st.current = none → (((h2.get st.h.size).parent).getD st.h.size) = st.h.size := by
+      intro h2 t g hpar hsz hc0
+      rw [g.below st.h.size (by omega) (fun q hq => by cases hq; exact Nat.le_refl _), hpar, hc0]; rfl
+    by_cases h123 : (c == 123) = true
+    · rw [if_pos h123] at hp
+      have hc : c = 123 := by simpa using h123
+      subst hc
+      obtain ⟨st1, hin1, hs1, hk1, hh1, hc1, hrun⟩ := step_open_object d hv rest i
+      obtain ⟨e1, e2, e3, e4⟩ := open_info d hv .object i (123 :: rest)
+      rw [e1] at hh1
+      cases hsk : skipWs rest (i + 1) with
+      | mk r1 i1 =>
+        rw [hsk] at hp
+        simp only [] at hp
+        match r1, hsk, hp with
+        | [], _, hp => cases hp
+        | x :: r2, hsk, hp =>
+          have hres := resume_skip d st1 rest (i + 1) x r2 i1 hsk
+          by_cases hx : x = 125
+          · subst hx
+            simp only [Except.ok.injEq, Prod.mk.injEq] at hp
+            obtain ⟨hvv, hr, hj⟩ := hp
+            subst hr; subst hj; subst hvv
+            obtain ⟨st', hav, hcl, hrun2⟩ := step_close_object d hin1 hk1 (Or.inl hs1) r2 i1
+            obtain ⟨hh', hc'⟩ := hcl st.h.size hc1
+            refine ⟨st', hav, Same.of_eq (by rw [hrun, hres, hrun2]), ?_, ?_, ?_⟩
+            · rw [hh', hh1]; simp only [build, buildMembers]
+            · intro c0 hc0
+              rw [hc', hh1, e2, hc0]; rfl
+            · intro hc0
+              rw [hc', hh1, e2, hc0]; rfl
+          · have hp' : parseValue.members fuel (x :: r2) i1 i [] = .ok (v, r, j) := by
+              split at hp
+              · cases hp
+              · rename_i heq; cases heq; exact absurd rfl hx
+              · exact hp
+            obtain ⟨st', ys, b, hvv, hav, hsame, hh', hc'⟩ := hm _ _ _ _ _ _ _ hp' st1 stack st.h.size hin1 hc1 hk1 (Or.inl hs1)
+            subst hvv
+            have g := (buildMembers_grown d ys _ st.h.size (by rw [← hh1]; exact hin1.1) (by rw [e4]; omega) e3).1
+            refine ⟨st', hav, by rw [hrun, hres]; exact hsame, ?_, ?_, ?_⟩
+            · rw [hh', hh1]; simp only [build, List.nil_append]
+            · intro c0 hc0
+              rw [hc', hh1, closeCur _ .object g e2 e4 c0 hc0]
+            · intro hc0
+              rw [hc', hh1, closeNone _ .object g e2 e4 hc0]
+    rw [if_neg h123] at hp
+    by_cases h91 : (c == 91) = true
+    · rw [if_pos h91] at hp
+      have hc : c = 91 := by simpa using h91
+      subst hc
+      obtain ⟨st1, hin1, hs1, hk1, hh1, hc1, hrun⟩ := step_open_array d hv rest i
+      obtain ⟨e1, e2, e3, e4⟩ := open_info d hv .array i (91 :: rest)
+      rw [e1] at hh1
+      cases hsk : skipWs rest (i + 1) with
+      | mk r1 i1 =>
+        rw [hsk] at hp
+        simp only [] at hp
+        match r1, hsk, hp with
+        | [], _, hp => cases hp
+        | x :: r2, hsk, hp =>
+          have hres := resume_skip d st1 rest (i + 1) x r2 i1 hsk
+          by_cases hx : x = 93
+          · subst hx
+            simp only [Except.ok.injEq, Prod.mk.injEq] at hp
+            obtain ⟨hvv, hr, hj⟩ := hp
+            subst hr; subst hj; subst hvv
+            obtain ⟨st', hav, hcl, hrun2⟩ := step_close_array d hin1 hk1 (Or.inl hs1) r2 i1
+            obtain ⟨hh', hc'⟩ := hcl st.h.size hc1
+            refine ⟨st', hav, Same.of_eq (by rw [hrun, hres, hrun2]), ?_, ?_, ?_⟩
+            · rw [hh', hh1]; simp only [build, buildElems]
+            · intro c0 hc0
+              rw [hc', hh1, e2, hc0]; rfl
+            · intro hc0
+              rw [hc', hh1, e2, hc0]; rfl
+          · have hp' : parseValue.elements fuel (x :: r2) i1 i [] = .ok (v, r, j) := by
+              split at hp
+              · cases hp
+              · rename_i heq; cases heq; exact absurd rfl hx
+              · exact hp
+            have hve1 : VE st1 (false :: stack) := ⟨hin1, Or.inl hs1, hk1⟩
+            obtain ⟨st', ys, b, hvv, hav, hsame, hh', hc'⟩ := he _ _ _ _ _ _ _ hp' st1 stack st.h.size hve1 hc1
+              (fun c' bs' h => by cases h; exact skipWs_head _ _ _ _ _ hsk)
+            subst hvv
+            have g := (buildElems_grown d ys _ st.h.size (by rw [← hh1]; exact hin1.1) (by rw [e4]; omega) e3).1
+            refine ⟨st', hav, by rw [hrun, hres]; exact hsame, ?_, ?_, ?_⟩
+            · rw [hh', hh1]; simp only [build, List.nil_append]
+            · intro c0 hc0
+              rw [hc', hh1, closeCur _ .array g e2 e4 c0 hc0]
+            · intro hc0
+              rw [hc', hh1, closeNone _ .array g e2 e4 hc0]
+    rw [if_neg h91] at hp
+    by_cases h34 : (c == 34) = true
+    · rw [if_pos h34] at hp
+      have hc : c = 34 := by simpa using h34
+      subst hc
+      cases hsc : scanStringBody rest (i + 1) with
+      | error e => rw [hsc] at hp; cases hp
+      | ok v1 =>
+        obtain ⟨r1, j1⟩ := v1
+        rw [hsc] at hp
+        simp only [Except.ok.injEq, Prod.mk.injEq] at hp
+        obtain ⟨hvv, hr, hj⟩ := hp
+        subst hr; subst hj; subst hvv
+        obtain ⟨st', hav, hh', hc', hcn, hrun⟩ := step_string d hv rest i r1 j1 hsc
+        exact ⟨st', hav, Same.of_eq hrun, by rw [hh']; simp only [build]; exact leafHeap_rest _ _ _ _ _ _ _ _ _, hc', hcn⟩
+    rw [if_neg h34] at hp
+    have wordCase : ∀ (w : Bytes) (f : Bytes × Nat → STree × Bytes × Nat), (∀ x, (f x).2 = x) →
+        (∀ x, build d (f x).1 st.h st.current st.key = leafHeap d st.h st.current st.key (if c = 110 then .null else .bool) i x.2 []) →
+        ((c = 116 ∧ w = wTrue) ∨ (c = 102 ∧ w = wFalse) ∨ (c = 110 ∧ w = wNull)) →
+        Except.map f (expectWord w (c :: rest) i) = .ok (v, r, j) →
+        ∃ st', AV st' stack ∧ Same (decodeRun d st (c :: rest) i) (resume d st' r j) ∧ st'.h = build d v st.h st.current st.key ∧
+          (∀ c : Nat, st.current = some c → st'.current = some c) ∧ (st.current = none → st'.current = some st.h.size) := by
+      intro w f hf hb hcw hmap
+      cases hew : expectWord w (c :: rest) i with
+      | error e => rw [hew] at hmap; cases hmap
+      | ok x =>
+        obtain ⟨r1, j1⟩ := x
+        rw [hew] at hmap
+        simp only [Except.map, Except.ok.injEq] at hmap
+        have h2 := hf (r1, j1)
+        have h3 := hb (r1, j1)
+        rw [hmap] at h2 h3
+        simp only [Prod.mk.injEq] at h2
+        obtain ⟨hr, hj⟩ := h2
+        subst hr; subst hj
+        obtain ⟨st', hav, hh', hc', hcn, hrun⟩ := step_word d hv c rest i w hcw r j hew
+        exact ⟨st', hav, Same.of_eq hrun, by rw [hh', h3]; exact leafHeap_rest _ _ _ _ _ _ _ _ _, hc', hcn⟩
+    by_cases h116 : (c == 116) = true
+    · rw [if_pos h116] at hp
+      have hc : c = 116 := by simpa using h116
+      exact wordCase wTrue _ (fun x => rfl) (fun x => by subst hc; simp only [build]; rfl) (Or.inl ⟨hc, rfl⟩) hp
+    rw [if_neg h116] at hp
+    by_cases h102 : (c == 102) = true
+    · rw [if_pos h102] at hp
+      have hc : c = 102 := by simpa using h102
+      exact wordCase wFalse _ (fun x => rfl) (fun x => by subst hc; simp only [build]; rfl) (Or.inr (Or.inl ⟨hc, rfl⟩)) hp
+    rw [if_neg h102] at hp
+    by_cases h110 : (c == 110) = true
+    · rw [if_pos h110] at hp
+      have hc : c = 110 := by simpa using h110
+      exact wordCase wNull _ (fun x => rfl) (fun x => by subst hc; simp only [build]; rfl) (Or.inr (Or.inr ⟨hc, rfl⟩)) hp
+    rw [if_neg h110] at hp
+    by_cases hnum : (c == 45 || isDigit c) = true
+    · rw [if_pos hnum] at hp
+      cases hsn : scanNumber (c :: rest) i with
+      | error e => rw [hsn] at hp; cases hp
+      | ok x =>
+        obtain ⟨r1, j1⟩ := x
+        rw [hsn] at hp
+        simp only [Except.map, Except.ok.injEq, Prod.mk.injEq] at hp
+        obtain ⟨hvv, hr, hj⟩ := hp
+        subst hr; subst hj; subst hvv
+        obtain ⟨st', hav, hh', hc', hcn, hsame⟩ := step_number d hv c rest i hnum r1 j1 hsn
+        exact ⟨st', hav, hsame, by rw [hh']; simp only [build]; exact leafHeap_rest _ _ _ _ _ _ _ _ _, hc', hcn⟩
+    · rw [if_neg hnum] at hp; cases hp
+
+
 theorem pe_step (d fuel : Nat) (hv : PV d fuel) (he : PE d fuel) : PE d (fuel + 1) := by
-  intro s i start acc v r j hp st stack hve hnw
+  intro s i start acc v r j hp st stack c hve hcur hnw
   unfold parseValue.elements at hp
   cases hpv : parseValue fuel s i with
   | error e => rw [hpv] at hp; cases hp
@@ -182,7 +254,9 @@ theorem pe_step (d fuel : Nat) (hv : PV d fuel) (he : PE d fuel) : PE d (fuel + 
     obtain ⟨v1, r1, j1⟩ := x
     rw [hpv] at hp
     simp only [] at hp
-    obtain ⟨st1, hav1, hsame1⟩ := hv s i v1 r1 j1 hpv st (false :: stack) hve hnw
+    obtain ⟨st1, hav1, hsame1, hh1, hc1, _⟩ := hv s i v1 r1 j1 hpv st (false :: stack) hve hnw
+    have hcur1 := hc1 c hcur
+    rw [hcur, hve.2.2] at hh1
     have hin1 := hav1.cons_inStack
     cases hsk : skipWs r1 j1 with
     | mk r2 j2 =>
@@ -195,10 +269,13 @@ theorem pe_step (d fuel : Nat) (hv : PV d fuel) (he : PE d fuel) : PE d (fuel + 
         by_cases h93 : x = 93
         · subst h93
           simp only [Except.ok.injEq, Prod.mk.injEq] at hp
-          obtain ⟨_, hr, hj⟩ := hp
+          obtain ⟨hvv, hr, hj⟩ := hp
           subst hr; subst hj
-          obtain ⟨st', hav, hcl⟩ := step_close_array d hin1 hav1.2.2.1 (Or.inr hav1.2.1) r3 j2
-          exact ⟨st', hav, hsame1.trans (Same.of_eq (by rw [hres, hcl]))⟩
+          obtain ⟨st', hav, hcl, hrun2⟩ := step_close_array d hin1 hav1.2.2.1 (Or.inr hav1.2.1) r3 j2
+          obtain ⟨hh', hc'⟩ := hcl c hcur1
+          refine ⟨st', [v1], j2 + 1, hvv.symm, hav, hsame1.trans (Same.of_eq (by rw [hres, hrun2])), ?_, ?_⟩
+          · rw [hh', hh1]; simp only [buildElems]
+          · rw [hc', hh1]; simp only [buildElems]
         by_cases h44 : x = 44
         · subst h44
           simp only [] at hp
@@ -210,14 +287,16 @@ theorem pe_step (d fuel : Nat) (hv : PV d fuel) (he : PE d fuel) : PE d (fuel + 
             simp only [] at hp
             cases r4 with
             | nil =>
-              -- elements on the empty input fails
               obtain ⟨e, he'⟩ := elements_nil fuel j4 start (acc ++ [v1])
               rw [he'] at hp; cases hp
             | cons y r5 =>
               have hve2 : VE { st1 with state := Gen.sVA } (false :: stack) := ⟨⟨hin1.1, hin1.2⟩, Or.inr rfl, hav1.2.2.1⟩
-              obtain ⟨st', hav, hsame⟩ := he _ _ _ _ _ _ _ hp _ stack hve2 (fun c' bs' h => by cases h; exact skipWs_head _ _ _ _ _ hsk2)
+              obtain ⟨st', ys, b, hvv, hav, hsame, hh', hc'⟩ := he _ _ _ _ _ _ _ hp _ stack c hve2 hcur1
+                (fun c' bs' h => by cases h; exact skipWs_head _ _ _ _ _ hsk2)
               have hres2 := resume_skip d { st1 with state := Gen.sVA } r3 (j2 + 1) y r5 j4 hsk2
-              exact ⟨st', hav, hsame1.trans (by rw [hres, hcm, hres2]; exact hsame)⟩
+              refine ⟨st', v1 :: ys, b, by rw [hvv]; simp, hav, hsame1.trans (by rw [hres, hcm, hres2]; exact hsame), ?_, ?_⟩
+              · rw [hh']; simp only [buildElems, hh1]
+              · rw [hc']; simp only [buildElems, hh1]
         · exfalso
           split at hp
           · cases hp
@@ -226,12 +305,12 @@ theorem pe_step (d fuel : Nat) (hv : PV d fuel) (he : PE d fuel) : PE d (fuel + 
           · cases hp
 
 theorem pm_step (d fuel : Nat) (hv : PV d fuel) (hm : PM d fuel) : PM d (fuel + 1) := by
-  intro s i start acc v r j hp st stack hin hkey hs
+  intro s i start acc v r j hp st stack c hin hcur hkey hs
   unfold parseValue.members at hp
   cases s with
   | nil => cases hp
-  | cons c rest =>
-    by_cases h34 : c = 34
+  | cons c0 rest =>
+    by_cases h34 : c0 = 34
     · subst h34
       simp only [] at hp
       cases hsc : scanStringBody rest (i + 1) with
@@ -240,7 +319,9 @@ theorem pm_step (d fuel : Nat) (hv : PV d fuel) (hm : PM d fuel) : PM d (fuel + 
         obtain ⟨r1, j1⟩ := x
         rw [hsc] at hp
         simp only [] at hp
-        obtain ⟨k, hkrun⟩ := step_key d hin hkey hs rest i r1 j1 hsc
+        obtain ⟨k, hkq, hkrun⟩ := step_key d hin hkey hs rest i r1 j1 hsc
+        have hkd : (unquoteBytes (List.take (j1 - i) (34 :: rest)) 34).getD [] = k := by rw [hkq]; rfl
+        rw [hkd] at hp
         cases hsk : skipWs r1 j1 with
         | mk r2 j2 =>
           rw [hsk] at hp
@@ -268,8 +349,10 @@ theorem pm_step (d fuel : Nat) (hv : PV d fuel) (hm : PM d fuel) : PM d (fuel + 
                   | nil => rw [parseValue_nil] at hpv; cases hpv
                   | cons z r4' =>
                     have hve3 : VE { st with state := Gen.sVA, key := some k } (true :: stack) := ⟨⟨hin.1, hin.2⟩, rfl, rfl⟩
-                    obtain ⟨st3, hav3, hsame3⟩ := hv _ _ _ _ _ hpv _ (true :: stack) hve3
+                    obtain ⟨st3, hav3, hsame3, hh3, hc3, _⟩ := hv _ _ _ _ _ hpv _ (true :: stack) hve3
                       (fun c' bs' h => by cases h; exact skipWs_head _ _ _ _ _ hsk4)
+                    have hcur3 : st3.current = some c := hc3 c hcur
+                    simp only [hcur] at hh3
                     have hres4 := resume_skip d { st with state := Gen.sVA, key := some k } r3 (j2 + 1) z r4' j4 hsk4
                     have hin3 := hav3.cons_inStack
                     have pre : Same (decodeRun d st (34 :: rest) i) (resume d st3 r5 j5) := by
@@ -285,10 +368,13 @@ theorem pm_step (d fuel : Nat) (hv : PV d fuel) (hm : PM d fuel) : PM d (fuel + 
                         by_cases h125 : w = 125
                         · subst h125
                           simp only [Except.ok.injEq, Prod.mk.injEq] at hp
-                          obtain ⟨_, hr, hj⟩ := hp
+                          obtain ⟨hvv, hr, hj⟩ := hp
                           subst hr; subst hj
-                          obtain ⟨st', hav, hcl⟩ := step_close_object d hin3 hav3.2.2.1 (Or.inr hav3.2.1) r7 j6
-                          exact ⟨st', hav, pre.trans (Same.of_eq (by rw [hres6, hcl]))⟩
+                          obtain ⟨st', hav, hcl, hrun2⟩ := step_close_object d hin3 hav3.2.2.1 (Or.inr hav3.2.1) r7 j6
+                          obtain ⟨hh', hc'⟩ := hcl c hcur3
+                          refine ⟨st', [(k, v1)], j6 + 1, hvv.symm, hav, pre.trans (Same.of_eq (by rw [hres6, hrun2])), ?_, ?_⟩
+                          · rw [hh', hh3]; simp only [buildMembers]
+                          · rw [hc', hh3]; simp only [buildMembers]
                         by_cases h44 : w = 44
                         · subst h44
                           simp only [] at hp
@@ -300,13 +386,15 @@ theorem pm_step (d fuel : Nat) (hv : PV d fuel) (hm : PM d fuel) : PM d (fuel + 
                             simp only [] at hp
                             cases r8 with
                             | nil =>
-                              obtain ⟨e, he'⟩ := members_nil fuel j8 start (acc ++ [((unquoteBytes (List.take (j1 - i) (34 :: rest)) 34).getD [], v1)])
+                              obtain ⟨e, he'⟩ := members_nil fuel j8 start (acc ++ [(k, v1)])
                               rw [he'] at hp; cases hp
                             | cons y r9 =>
                               have hin4 : InStack { st3 with state := Gen.sKE } (true :: stack) := ⟨hin3.1, hin3.2⟩
-                              obtain ⟨st', hav, hsame⟩ := hm _ _ _ _ _ _ _ hp _ stack hin4 hav3.2.2.1 (Or.inr rfl)
+                              obtain ⟨st', ys, b, hvv, hav, hsame, hh', hc'⟩ := hm _ _ _ _ _ _ _ hp _ stack c hin4 hcur3 hav3.2.2.1 (Or.inr rfl)
                               have hres8 := resume_skip d { st3 with state := Gen.sKE } r7 (j6 + 1) y r9 j8 hsk8
-                              exact ⟨st', hav, pre.trans (by rw [hres6, hcm, hres8]; exact hsame)⟩
+                              refine ⟨st', (k, v1) :: ys, b, by rw [hvv]; simp, hav, pre.trans (by rw [hres6, hcm, hres8]; exact hsame), ?_, ?_⟩
+                              · rw [hh']; simp only [buildMembers, hh3]
+                              · rw [hc']; simp only [buildMembers, hh3]
                         · exfalso
                           split at hp
                           · cases hp
@@ -428,7 +516,7 @@ theorem unmarshalIn_complete (h : Heap) (ho : HeapOrd h) (data : Bytes) (v : STr
       | nil => rw [parseValue_nil] at hpv; cases hpv
       | cons c rest =>
         rw [unmarshalIn_ok_iff h data c rest i hsk]
-        obtain ⟨st', hav, hsame⟩ := (pv_all (h.addData data).2 _).1 _ _ _ _ _ hpv _ [] (start_VE h ho data)
+        obtain ⟨st', hav, hsame, _, _, _⟩ := (pv_all (h.addData data).2 _).1 _ _ _ _ _ hpv _ [] (start_VE h ho data)
           (fun c' bs' he => by cases he; exact skipWs_head _ _ _ _ _ hsk)
         rw [hsame.accepting]
         cases hsk2 : skipWs r j with
@@ -440,5 +528,60 @@ theorem unmarshalIn_complete (h : Heap) (ho : HeapOrd h) (data : Bytes) (v : STr
             rw [hi']
             exact accepting_of_AV_nil hav i'
           | cons y ys => simp at hp
+
+/-- **what `Unmarshal` builds**: for an accepted text the returned heap is exactly `build` of the denoted tree on the input
+heap (with the text as a new data cell), and the returned root is the first node allocated -/
+theorem unmarshalIn_builds (h : Heap) (ho : HeapOrd h) (data : Bytes) (v : STree) (hp : parseRef data = .ok v) :
+    unmarshalIn h data = .ok (build (h.addData data).2 v (h.addData data).1 none none, h.size) := by
+  rw [unmarshalIn_eq]
+  unfold parseRef at hp
+  cases hsk : skipWs data 0 with
+  | mk s i =>
+    rw [hsk] at hp
+    simp only [] at hp
+    cases hpv : parseValue (2 * data.length + 4) s i with
+    | error e => rw [hpv] at hp; cases hp
+    | ok x =>
+      obtain ⟨v1, r, j⟩ := x
+      rw [hpv] at hp
+      simp only [] at hp
+      cases s with
+      | nil => rw [parseValue_nil] at hpv; cases hpv
+      | cons c rest =>
+        simp only []
+        obtain ⟨st', hav, hsame, hh', _, hcn⟩ := (pv_all (h.addData data).2 _).1 _ _ _ _ _ hpv _ [] (start_VE h ho data)
+          (fun c' bs' he => by cases he; exact skipWs_head _ _ _ _ _ hsk)
+        cases hsk2 : skipWs r j with
+        | mk r2 j2 =>
+          rw [hsk2] at hp
+          cases r2 with
+          | cons y ys => simp at hp
+          | nil =>
+            simp only [Except.ok.injEq] at hp
+            subst hp
+            obtain ⟨i', hi'⟩ := resume_end (h.addData data).2 st' r j j2 hsk2
+            rw [hi'] at hsame
+            have hrun : decodeRun (h.addData data).2 { h := (h.addData data).1, state := Gen.sGO, key := none, current := none } (c :: rest) i
+                = .ok (st', i') := by
+              rcases hsame with h1 | ⟨_, ⟨e, he⟩⟩
+              · exact h1
+              · cases he
+            rw [hrun]
+            simp only []
+            have hcur : st'.current = some h.size := by
+              have := hcn rfl
+              simpa [Heap.addData, Heap.size] using this
+            obtain ⟨c0, hc0, hlt, hpar, hb⟩ := hav.2.2.2
+            rw [hcur] at hc0
+            cases hc0
+            simp only [hcur]
+            have hst : (st'.state != Gen.sOK) = false := by simp [hav.2.1]
+            have hroot : st'.h.root h.size = h.size := by
+              unfold root
+              have : st'.h.size = (st'.h.size - 1) + 1 := by omega
+              rw [this, rootAux, hpar]
+            have hready : st'.h.ready h.size = true := by simp [ready, hb]
+            simp only [hst, hroot, hready, Bool.not_true, Bool.false_eq_true, if_false]
+            rw [hh']
 
 end Ajson.Proofs
